@@ -540,7 +540,7 @@ package iscp
 //@   ghostvar live bool = false
 //@   ghostvar relayed bool = false
 //@   after call Context).Err: live = (res0 == nil)
-//@   after recv inCh: relayed = true
+//@   after recv inCh: relayed = ok   // a value taken from the result channel is relayed only when it is a genuine one (not the zero value of a closed channel)
 //@   assert send: imp(v == nil, live || relayed)
 
 // the sent store forgets a chunk only after a result (ack or ack timeout) for exactly that chunk
